@@ -425,7 +425,7 @@ func c07PkTok(r *vhRng, mask int, small bool) string {
 	switch {
 	case small:
 		l = r.Intn(3)
-	case r.Chance(1, 40):
+	case r.Chance(1, 120):
 		l = r.Pick(65534, 65535, mask+255*r.Intn(257), mask+255*(1+r.Intn(256))-1, mask+255*(1+r.Intn(256))+1)
 		if l > 65535 {
 			l = 65535
